@@ -1870,7 +1870,7 @@ def flatten(array, axis=1, highlevel=True, behavior=None):
                         bigmask[:] = False
                         bigmask[tags == tag] = nplike.asarray(content.bytemask()).view(
                             np.bool_
-                        )
+                        )[index[tags == tag]]
                         index[bigmask] = -1
 
                 good = index >= 0
